@@ -1,11 +1,13 @@
 #!/bin/sh
 # Sensitivity run: every kept seeded change under /verif/seeded/<PROP>-<k>/ must make its
-# property's quick check exit 1. Writes seeded/RESULTS.txt.
+# property's quick check exit 1. Writes seeded/RESULTS.txt (or seeded/RESULTS_<PROP>.txt when a
+# property is given as the first argument: `tools/run_seeded.sh C14` re-runs only the C14 changes).
 cd "$(dirname "$0")/.." || exit 9
 HERE=$(pwd)
-OUT=seeded/RESULTS.txt
+ONLY=$1
+OUT=seeded/RESULTS${ONLY:+_$ONLY}.txt
 : > $OUT
-for d in seeded/*/; do
+for d in seeded/${ONLY:-*}*/; do
   id=$(basename "$d"); prop=${id%%-*}
   [ -f "$d/patch.diff" ] || continue
   line=$(tools/try_mutant.sh "$prop" "$HERE/$d" 2>&1 | head -1)
